@@ -603,7 +603,10 @@ class _SingleSourceDeblender:
         # all sources meet the contrast criterion.
         remove_marker = True
         while remove_marker:
-            markers = watershed(-self.data, markers, mask=self.segment_mask,
+            # negate in floating point: the negative of an unsigned
+            # integer array wraps around
+            markers = watershed(-self.data.astype(float), markers,
+                                mask=self.segment_mask,
                                 connectivity=self.footprint)
 
             labels = _get_labels(markers)
